@@ -39,10 +39,12 @@ theorem gen_read_loops :
     ipfixReadLoop = canonicalReadLoop ∧ netflowV9ReadLoop = canonicalReadLoop ∧
     netflowV5ReadLoop = canonicalReadLoop ∧ sflowReadLoop = canonicalReadLoop := by decide
 
-/-- `main`: signals registered before anything runs; the run loops and, after the signal, the
+/-- `main`: signals registered before anything runs; the information model (a global map read by the IPFIX and NetFlow
+v9 decoders) is replaced by `LoadExtElements` BEFORE any run loop is started (F18 repair: it used to be replaced from
+inside `IPFIX.run()`, concurrently with running NetFlow v9 workers); the run loops and, after the signal, the
 shutdowns are all counted in the wait group; `main` returns (exit status 0) after `wg.Wait()` -/
 theorem gen_main :
-    mainSteps = [.notifySigintSigterm, .spawnRunsCounted, .spawnStats, .awaitSignal, .spawnShutdownsCounted, .waitAll] := by
+    mainSteps = [.notifySigintSigterm, .loadElements, .spawnRunsCounted, .spawnStats, .awaitSignal, .spawnShutdownsCounted, .waitAll] := by
   decide
 
 /-! ## All interleavings of the generated programs -/
